@@ -14,6 +14,9 @@ impl Flock {
     pub fn lock(db_dir: &Path, lock_filename: &str) -> anyhow::Result<Self> {
         let lock_path = db_dir.join(lock_filename);
 
+        #[cfg(nomt_verif)]
+        crate::verif::io(-1, crate::verif::Op::Lock(&lock_path), "flock.lock")?;
+
         let lock_fd = OpenOptions::new()
             .read(true)
             .write(true)
@@ -31,6 +34,11 @@ impl Flock {
 
 impl Drop for Flock {
     fn drop(&mut self) {
+        #[cfg(nomt_verif)]
+        {
+            use std::os::fd::AsRawFd as _;
+            let _ = crate::verif::io(self.lock_fd.as_raw_fd(), crate::verif::Op::Unlock, "flock.unlock");
+        }
         if let Err(e) = crate::sys::unix::unlock(&self.lock_fd) {
             eprintln!("Failed to unlock directory lock: {e}");
         }
